@@ -28,7 +28,7 @@ SPEC = {
         "LEAN": {"modules": ["GfaProofs.Bridge.Geometry", "GfaProofs.Bridge.Connect", "GfaProofs.C02", "GfaProofs.C02Rename"], "support": ["GfaModel.Graph", "GfaModel.GraphObs", "GfaProofs.Lemmas.Graph", "GfaProofs.C09"],
                  "theorems": ["Gfa.C02.closed_reachable", "Gfa.C02.rename_closed", "Gfa.C02.renameIn_segRefs", "Gfa.C02.renameIn_itemRefs",
                               "Gfa.C02.closed_reachable_partial", "Gfa.C02.step_closed", "Gfa.C02.add_closed", "Gfa.C02.rm_closed",
-                              "Gfa.C02.rmIdx_closed", "Gfa.C02.rm_no_zombie", "Gfa.C02.reference_resolves", "Gfa.C02.ensureRefs_grow",
+                              "Gfa.C02.rmIdx_closed", "Gfa.C02.rmCore_closed", "Gfa.C02.resetAll_closed", "Gfa.C02.grow_adopt", "Gfa.C02.rm_no_zombie", "Gfa.C02.reference_resolves", "Gfa.C02.ensureRefs_grow",
                               "Gfa.C02.cascade_closed", "Gfa.C02.live_not_dependent", "Gfa.C09.nodup_reachable",
                               "Gfa.Bridge.Geometry.refkey_table", "Gfa.Bridge.Geometry.linkKey_table", "Gfa.Bridge.Geometry.gapKey_table",
                               "Gfa.Bridge.Connect.referenceFields_table", "Gfa.Bridge.Connect.dependentLines_table",
@@ -38,7 +38,11 @@ SPEC = {
                         "are refused by the library's field validation",
                         "symmetry reference/back-reference: back-reference collections are queries over forward references in the model, so for that "
                         "clause the claim about the code rests on the correspondence (every collection of every line after every step) and the oracle",
-                        "path -> link resolution is dynamic in the model (first compatible stored link)"],
+                        "path -> link resolution is dynamic in the model (first compatible stored link); a placeholder link takes the overlap a path "
+                        "step states for it (adoptOverlap) and gives it up when no stored path states it any more (resetPlaceholder) as in "
+                        "Path._initialize_links / _remove_nonfield_backreferences; with two placeholder links over one pair of segment ends the "
+                        "library's object bindings and the model's resolution can differ after such a reset: the correspondence stops "
+                        "comparing a history at such a state (lib.ambiguous_placeholders), the oracle still judges it"],
     },
     "C03": {
         "LEAN": {"modules": ["GfaProofs.C03", "GfaProofs.C03Perm", "GfaProofs.C12Orient", "GfaProofs.C13"], "support": ["GfaModel.Graph", "GfaModel.Version", "GfaProofs.C02", "GfaProofs.C09"],
@@ -59,11 +63,14 @@ SPEC = {
         "LEAN": {"modules": ["GfaProofs.C05", "GfaProofs.C05Rename", "GfaProofs.Bridge.Connect"], "support": ["GfaModel.Graph", "GfaProofs.C02", "GfaProofs.C02Rename"],
                  "theorems": ["Gfa.Bridge.Connect.dependentLines_table", "Gfa.Bridge.Connect.otherReferences_table", "Gfa.Bridge.Connect.gap_sets_link_paths",
                               "Gfa.C05.rename_frame", "Gfa.C05.rename_mentions", "Gfa.C05.rename_carrier", "Gfa.C05.renameIn_frame",
-                              "Gfa.C05.cascade_sound", "Gfa.C05.cascade_complete", "Gfa.C05.rm_lines", "Gfa.C05.rm_kept_unchanged",
+                              "Gfa.C05.cascade_sound", "Gfa.C05.cascade_complete", "Gfa.C05.rm_lines", "Gfa.C05.rmCore_lines", "Gfa.C05.rm_lines_origin",
+                              "Gfa.C05.rm_kept_unchanged",
                               "Gfa.C05.rm_set_rest", "Gfa.C05.rm_name_gone", "Gfa.C02.rmIdx_closed", "Gfa.C02.dropItems_itemRefs",
                               "Gfa.C09.rename_nodup", "Gfa.G.renameIn_name"]},
         "ASSUMPTIONS": ["the refinement 'state = parse of the denoted text' is decided by the oracle (independent text model + reparse) and the "
-                        "correspondence; proved in Lean: the removal cascade is exactly the least closed set of dependants, the rest is textually unchanged; "
+                        "correspondence; proved in Lean: the removal cascade is exactly the least closed set of dependants, the rest is textually unchanged "
+                        "(rm_lines_origin: every remaining line is a kept line with the same record type and identifier, the same text unless it is a set "
+                        "that lost a mention or a placeholder link that gave up an overlap no stored path states any more); "
                         "a rename substitutes the identifier in every mention (rename_mentions), the renamed line carries the new identifier "
                         "(rename_carrier) and every line that does not mention the old identifier is literally unchanged (rename_frame)",
                         "set/delete of a tag is not modelled in Lean (oracle only)"],
